@@ -174,14 +174,36 @@ def rule_formula(run, F, cfg):
 def rule_gate(run, F, cfg):
     S = RS + "ResourceStorage::"
     n = 0
-    for name in (S + "get_scriptlet_resource", S + "recursive_dependencies"):
+    # the function that walks the dependency graph: recursive_dependencies itself, or the private helper it delegates to
+    # (the one that calls itself and the permission gate)
+    walker = S + "recursive_dependencies"
+    for nme_, f_ in F.fns.items():
+        if nme_.startswith(S) and "::{" not in nme_ and f_.calls(r"ResourceStorage::get_permissioned_resource$") \
+                and any(strip_generics(t["callee"]) == nme_ for b, t in f_.calls()):
+            walker = nme_
+    names = [S + "get_scriptlet_resource", S + "recursive_dependencies"] + ([walker] if walker != S + "recursive_dependencies" else [])
+
+    def perm_param(fn):
+        for i in range(1, fn.argc + 1):
+            if "PermissionMask" in str(fn.locals[i]):
+                return i
+        return fn.argc
+    for name in names:
         f = F.fn(name)
         run.touched(f)
         # every get_permissioned_resource call passes the function's own filter_permission
         gp = f.calls(r"ResourceStorage::get_permissioned_resource$")
         # the rule's permission is the parameter of type PermissionMask (by position: 3 in get_scriptlet_resource,
         # 4 in recursive_dependencies -- counted with self)
-        perm = f.local_name(3 if name.endswith("get_scriptlet_resource") else 4)
+        perm = f.local_name(perm_param(f))
+        if name == S + "recursive_dependencies" and walker != name:
+            # a pure wrapper: it hands its own name, list and permission on to the walker
+            wc = f.calls("^" + re.escape(walker) + "$")
+            okw = len(wc) == 1 and [f.expr_operand(a) for a in wc[0][1]["args"]][:3] == [f.local_name(1), f.local_name(2), f.local_name(3)] \
+                and f.expr_operand(wc[0][1]["args"][-1]) == perm
+            run.ob("C18.2.gate-provenance", "recursive_dependencies:delegates-unchanged", okw,
+                   f"recursive_dependencies passes its own arguments (name, list, permission) on to {walker.split('::')[-1]}", config=cfg)
+            continue
         okp = bool(gp) and all(f.expr_operand(t["args"][2]) == perm for b, t in gp)
         run.ob("C18.2.gate-provenance", f"{name.split('::')[-1]}:passes-own-permission", okp,
                f"{name} calls get_permissioned_resource with its own `filter_permission` parameter",
@@ -197,8 +219,8 @@ def rule_gate(run, F, cfg):
                    detail="a dependency resolved without the permission gate would be injected regardless of "
                           "the list's permissions")
         # recursion passes the same permission
-        rc = f.calls(r"ResourceStorage::recursive_dependencies$")
-        okr = bool(rc) and all(f.expr_operand(t["args"][3]) == perm for b, t in rc)
+        rc = f.calls(r"ResourceStorage::(recursive_dependencies|" + re.escape(walker.split("::")[-1]) + r")$")
+        okr = bool(rc) and all(f.expr_operand(t["args"][-1]) == perm for b, t in rc)
         run.ob("C18.2.gate-provenance", f"{name.split('::')[-1]}:recursion-same-permission", okr,
                f"{name} passes `filter_permission` unchanged to recursive_dependencies", config=cfg)
         # no raw lookup here
@@ -210,9 +232,9 @@ def rule_gate(run, F, cfg):
     # a dependency that is already in the list may have been put there for a rule with more permissions:
     # recursive_dependencies may report success only after the gate accepted THIS rule's permission ...
     from analysis.guards import conditional_defs as _cd
-    rd = F.fn(S + "recursive_dependencies")
+    rd = F.fn(walker)
     oks = [conds for kind, b, val, conds, _ in _cd(rd, 0) if "Result::Ok" in val]
-    pa = [re.escape(rd.local_name(i)) for i in (1, 2, 4)]      # self, the requested name, the rule's permission
+    pa = [re.escape(rd.local_name(i)) for i in (1, 2, perm_param(rd))]      # self, the requested name, the rule's permission
     gate_rx = (r"^discr\(resources::resource_storage::ResourceStorage::get_permissioned_resource\("
                + pa[0] + ", " + pa[1] + ", " + pa[2] + r"\)\)$")
     ok = bool(oks) and all(has_cond(c, gate_rx, 0) for c in oks)
@@ -234,6 +256,30 @@ def rule_gate(run, F, cfg):
            site=rd.loc(0), config=cfg,
            detail="comparing with the requested name misses a resource requested through an alias: duplicates, "
                   "and unbounded recursion on a dependency cycle that goes through aliases")
+    # ... and the walk is cut short only at a resource THIS walk has already checked: the list the `already seen` test
+    # looks into starts empty for every rule. The shared output list also holds what other rules on the page pulled in,
+    # perhaps with more permissions; stopping there leaves that resource's own dependencies unchecked for this rule
+    # (F-C18-3: an unprivileged scriptlet injected when a privileged rule shared an intermediate dependency with it)
+    early = []
+    for kind, b, val, conds, _ in _cd(rd, 0):
+        if "Result::Ok" in val:
+            for e, v in conds.items():
+                m_ = re.search(r"Iterator>::any\(core::slice::iter\((arg:\w+)\), closure\[", e)
+                if m_ and v == 1:
+                    early.append(m_.group(1))
+    seen_param = early[0] if len(set(early)) == 1 else None
+    fresh = []
+    if seen_param:
+        idx = [i for i in range(1, rd.argc + 1) if rd.local_name(i) == seen_param][0]
+        for caller, b, t in F.callers_of("^" + re.escape(walker) + "$"):
+            a = caller.expr_operand(t["args"][idx - 1])
+            if caller.name == walker:
+                fresh.append((caller.name.split("::")[-1], a == seen_param, a[:60]))
+            else:
+                fresh.append((caller.name.split("::")[-1], bool(re.match(r"^std::vec::Vec::new\(\)$", a)), a[:60]))
+    run.ob("C18.2.gate-provenance", "walk-stops-only-at-what-it-checked-itself", bool(seen_param) and bool(fresh) and all(x[1] for x in fresh),
+           f"the `already seen` test of {walker.split('::')[-1]} reads `{seen_param}`, which every caller creates empty for the rule at hand "
+           f"and the recursion passes on unchanged (call sites: {fresh})", site=rd.loc(0), config=cfg)
     g = F.fn(S + "get_scriptlet_resource")
     dec = g.calls(r"Engine>::decode$|::decode$")
     okd = bool(dec) and all("get_permissioned_resource(" in g.expr_operand(t["args"][-1]) for b, t in dec)
